@@ -827,7 +827,7 @@ pub fn gen_op(m: &Model, p: &Profile, seed: &OpSeed) -> Option<Op> {
         K::Wallops => format!("WALLOPS :{}", s.choose(TEXTS)),
         K::Kill => format!("KILL {} :{}", nick_pick(m, p, &mut s, true), s.choose(TEXTS)),
         K::Whowas => format!("WHOWAS {}", nick_pick(m, p, &mut s, false)),
-        K::CapPost => ["CAP END", "CAP LS 302", "CAP REQ :multi-prefix", "CAP LIST", "CAP REQ :bogus-cap", "PASS again", "USER again 0 * :Again"][s.pick(7)].to_string(),
+        K::CapPost => ["CAP END", "CAP END", "CAP LS 302", "CAP REQ :multi-prefix", "CAP LIST", "CAP REQ :bogus-cap", "PASS again", "USER again 0 * :Again", "USER mallory 0 * :Mallory"][s.pick(9)].to_string(),
         K::Die => {
             if s.chance(50) {
                 "DIE".to_string()
